@@ -30,7 +30,9 @@ RULE = ('correspondence: (a) FST._put_src on a real root, exhaustively over smal
         'comments value none/block/all/line/int and space False/True/0..3/7, vs the Lean model; (c) get_trivia_params and '
         '_check_opt_trivia on single values and 0-3-tuples of bool/int/str; (d) the model of regex \\s vs CPython over all '
         'code points. sweep: real structured edits (delete / replace / insert of statements and of expression-list '
-        'elements, every trivia option, pep8space, elif_, docstr) on commented corpus programs, judged with tokenize and '
+        'elements, every trivia option, pep8space, elif_, docstr) on commented corpus programs (unique comments, some ending in a '
+        'backslash / ascii art; injected multi-line str / bytes / f-string literals at every block depth; put code with '
+        'multi-line literals; insertions into elif chains that re-indent the chain, judged by tokens), judged with tokenize and '
         'line comparison only. distinct = distinct inputs; non-trivial = output differs from input')
 TRUSTED = [
     'modelled: fst_core._put_src (5 cases, source part) and _get_src, _params_offset on characters and bytes (bistr.c2b); '
@@ -249,21 +251,10 @@ def _run_sweep(ctx, progs, per):
             ctx.tally('edit_field', it['field'])
             ctx.tally('edit_outcome', it['outcome'])
             ctx.tally('trivia_option', it['edit'].get('trivia'))
-            neg = it.get('bad_spans', [])
-            if neg:
-                # `_put_src` called with an unordered span (end_ln = ln - 1, or -1 which wraps to the last line): the
-                # hypothesis ValidSpan of the theorems is violated by the caller; text outside the element is at risk.
-                # One signature for all symptoms.
-                ctx.tally('put_src_unordered_span', 'end_ln<0' if neg[0][2] < 0 else 'end_ln=ln-1')
-                ctx.fail(f'C04|{it["op"]}|stmt|put_src-unordered-span',
-                         f'_put_src called with unordered span {neg[0][:4]} ({neg[0][4]} lines) during {it["op"]} with trivia='
-                         f'{it["edit"].get("trivia")!r}: text outside the edited element is destroyed or duplicated',
-                         {'src': it['src'], 'edit': it['edit'], 'after': it.get('after'), 'span': neg[0],
-                          'oracle': [v['cls'] for v in it['violations']]})
-                continue
-            for v in it['violations']:
-                ctx.fail(f'C04|{it["op"]}|{it["field"]}|{v["cls"]}', v['what'],
-                         {'src': it['src'], 'edit': it['edit'], 'after': it.get('after'), 'detail': v.get('detail')})
+            if it.get('bad_spans'):
+                ctx.tally('put_src_unordered_span', 'end_ln<0' if it['bad_spans'][0][2] < 0 else 'end_ln=ln-1')
+            for sig, what, wit in co.classify(it):
+                ctx.fail(sig, what, wit)
             if it['violations'] or n <= 3:
                 ctx.sample({'edit': it['edit'], 'src': it['src'][:300], 'after': (it.get('after') or '')[:300]})
     ctx.notes['sweep_edits'] = ctx.notes.get('sweep_edits', 0) + n
@@ -295,5 +286,5 @@ def replay(ctx, data):
                 ctx.fail('replay', '_put_src result is not the flat-text splice', w)
         return
     it = co.run_edit(w['src'], w['edit'])
-    for v in it['violations']:
-        ctx.fail('replay', v['what'], w)
+    for sig, what, wit in co.classify(it):
+        ctx.fail(sig, what, w)
